@@ -98,6 +98,41 @@ func runC04(r *Runner, g *Gen, tier string) string {
 			}
 		}
 	}
+	// 2a. nesting attacks on recursive types: (i) every level is a counted slice / map whose count claims
+	// all the bytes that remain while its first entry holds the next level; (ii) a chain of nested
+	// messages that ends in something undecodable, so that every level wraps an error
+	for _, depth := range []int{50, 200, scale(tier, 600, 1500)} {
+		nest := func(idx, wt int, counted bool, leaf []byte) []byte {
+			inner := leaf
+			for i := 0; i < depth; i++ {
+				var body []byte
+				if counted {
+					rest := lenPrefixed(inner)
+					body = append(refVarint(uint64(len(rest))), rest...) // count = every remaining byte
+				} else {
+					body = lenPrefixed(inner)
+				}
+				inner = append(refTag(idx, wt), body...)
+			}
+			return inner
+		}
+		rec, recmap, muta := named("Rec"), named("RecMap"), named("MutA")
+		r.Do(codecOp("decdeep", "00", rec, "", A(hx(nest(3, 3, true, nil))), A("zero")), true, "dec.nested-counts")
+		r.Do(codecOp("decdeep", "00", rec, "", A(hx(nest(3, 3, true, []byte{0x1f}))), A("zero")), true, "dec.nested-counts")
+		r.Do(codecOp("decdeep", "00", rec, "", A(hx(nest(2, 2, false, []byte{0x1f}))), A("zero")), true, "dec.nested-errors")
+		r.Do(codecOp("decdeep", "00", muta, "", A(hx(nest(1, 2, false, []byte{0x1f}))), A("zero")), true, "dec.nested-errors")
+		r.Do(codecOp("deschost", "00", Struct(F("L", "1", Slice(Struct(F("L", "1", Slice(Struct(F("A", "1", B("int"))))))))), "", A(hx(nest(1, 3, true, nil)))), true, "deschost.nested-counts")
+		// map entries: count, then entry = length-prefixed {key?, value = field 2 holding the next level}
+		m := []byte{}
+		for i := 0; i < depth; i++ {
+			entry := append(refTag(2, 2), lenPrefixed(append(refTag(1, 3), m...))...)
+			rest := lenPrefixed(entry)
+			m = append(refVarint(uint64(len(rest))), rest...)
+		}
+		r.Do(codecOp("decdeep", "00", recmap, "", A(hx(append(refTag(1, 3), m...))), A("zero")), true, "dec.nested-counts")
+		// JSON-any arrays: count, then each entry length-prefixed {type = field 2 varint 6 (array)?, value}
+		r.Do(L(A("jhost"), A("arr"), A(hx(jsonNest(depth)))), true, "jhost.nested-counts")
+	}
 	// 2b. the JSON-any decoders and their descriptor walk: exhaustive short strings, then mutated valid encodings
 	jalpha := []byte{0x00, 0x01, 0x02, 0x03, 0x05, 0x06, 0x07, 0x08, 0x0a, 0x10, 0x12, 0x18, 0x1a, 0x1b, 0x7f, 0x80, 0xff}
 	jmax := scale(tier, 3, 4)
@@ -260,4 +295,16 @@ func containsNamedStruct(t *TyDef) bool {
 		return containsNamedStruct(t.Key) || containsNamedStruct(t.Elem)
 	}
 	return false
+}
+
+// jsonNest: JSON-any arrays nested depth deep, every level's count claiming all
+// the bytes that remain (entry = type field 2 = array, value field 3 = the next level).
+func jsonNest(depth int) []byte {
+	m := []byte{0x00}
+	for i := 0; i < depth; i++ {
+		entry := append([]byte{0x10, 0x05, 0x1b}, m...)
+		rest := lenPrefixed(entry)
+		m = append(refVarint(uint64(len(rest))), rest...)
+	}
+	return m
 }
